@@ -32,6 +32,9 @@ def main():
             continue
         meta = json.load(open(os.path.join(d, "meta.json")))
         pid = meta["property"]
+        ob = os.path.join(d, "decided_by")
+        if os.path.exists(ob):  # the clause the change breaks is decided by another property's check (see result.json)
+            pid = open(ob).read().strip()
         subprocess.run(["git", "-C", wt, "checkout", "-q", "--", "."], check=True)
         r = subprocess.run(["git", "-C", wt, "apply", os.path.join(d, "patch.diff")], capture_output=True, text=True)
         if r.returncode != 0:
